@@ -34,7 +34,7 @@ FILES = {
     "src/callbacks/simplestats.rs": ["C15"],
     "src/callbacks/opreturn.rs": ["C16"],
     "src/common/utils.rs": ["C09", "C15"],
-    "src/main.rs": ["C02"],
+    "src/main.rs": ["C02", "C10"],
 }
 OPS = [
     (r"<=", "<"), (r"(?<![<=-])<(?![<=])", "<="), (r">=", ">"), (r"(?<![->=])>(?![>=])", ">="), (r"==", "!="), (r"!=", "=="),
